@@ -194,8 +194,10 @@ def run(case, W):
     trig = [a for a in ta.apis if a.name == "trig"]
     mm = ref.Model(sa)
     pe = mm.event(case["ev_cmd"], 1, b"\n")
+    pe_crlf = ref.Model(sa).event(case["ev_cmd"], 1, b"\r\n")
     if trig and trig[0].result == 0:
-        if ev_out != bytes(pe.out):
+        # the newline style of an event unit is not fixed by any statement (C11 allows LF or CRLF; C20 speaks of command responses)
+        if ev_out != bytes(pe.out) and ev_out != bytes(pe_crlf.out):
             return Result(violation=("event-test-text", "unsolicited TEST of command %d with capacity %d: expected %r, got %r" % (case["ev_cmd"], S.ucap(sa), bytes(pe.out), ev_out)), runs=1)
         labels.add("event-test-emitted" if pe.out else "event-test-silent")
     cc = S.ccap(sa)
